@@ -7,6 +7,7 @@ from typing import Any
 
 from ..contexts import Ctx
 from ..objectmodel import nodedataclass
+from ..util.undefined import Undefined
 from .base import Leaf
 from .math import ffset
 
@@ -117,11 +118,13 @@ class Token(Leaf):
 
 @nodedataclass
 class Constant(Leaf):
-    literal: str = ''
+    literal: Any = Undefined
 
     def __post_init__(self):
         super().__post_init__()
-        self.literal = self.literal or self.ast
+        if self.literal is Undefined or (self.literal is None and self.ast is not None):
+            # NOTE: a literal that was given (a model loaded from JSON) is what it is, falsy values included
+            self.literal = self.ast
 
     def _parse(self, ctx: Ctx) -> Any:
         return ctx.constant(self.literal)
